@@ -28,6 +28,9 @@ func c10Fragments(rep *Report) int {
 			curScenario = name
 			unlock := func() {}
 			if frag != "empty" {
+				if hugeFound() {
+					continue
+				}
 				unlock = hugeLock()
 			}
 			var m0, m1 runtime.MemStats
@@ -78,6 +81,7 @@ func c10Fragments(rep *Report) int {
 			x.Finish()
 			unlock()
 			if reserved > 0 {
+				hugeSetFound()
 				rep.violate("C10/memory-reserved-by-announced-length/"+name, fmt.Sprintf("an 8-byte header announcing a packet of nearly 4 GiB made the gateway allocate %d MiB for this one connection", reserved>>20), map[string]any{"noreplay": true})
 				continue
 			}
